@@ -40,6 +40,9 @@ func stdL2(prop string, quickRandom, thoroughRandom int) func(r *Run) {
 }
 
 func init() {
+	register(&Property{ID: "C02", Level: "exploration",
+		Rule:  "cases = curated corpus (naming case k8 with json tags, overrides by path and by Message.Field, lower_snake names; scalar / message / embed / oneof matrices) + seeded random descriptors with random json tags and name overrides; structure: the run-time tfsdk.Schema is walked recursively and compared with the reference model (name set per level, type per the documented table, nesting mode; counter schema-attributes-judged); behaviour: every leaf field of every reachable message (through nested objects, first list element, map value, oneof branches, embeds; counter fields-probed) is probed with a distinctive non-zero value: CopyTo(probe) and CopyTo(base) must differ at exactly the attribute path the model assigns and carry the value in the documented Terraform type, and writing that attribute value into the base object must change exactly that field on CopyFrom; distinct = distinct probed field paths",
+		Check: stdL2("C02", 10, 150)})
 	register(&Property{ID: "C03", Level: "exploration",
 		Rule:  latticeRule + "one evaluation = one CopyTo into an empty schema-typed object followed by the conformance walk (presence, value type, schema type, no unknown, recursively) and the framework acceptance checks (ToTerraformValue type, ValueFromTerraform, tfsdk.State.Set)",
 		Check: stdL2("C03", 8, 150)})
@@ -62,7 +65,62 @@ func init() {
 	register(&Property{ID: "C06", Level: "fault_enumeration",
 		Rule:  "cases = curated corpus + seeded random descriptors; CopyFrom: per selected type B conforming base objects (fully known plan / masked plan); every fault position reachable through known parents is enumerated (attributes at every depth, list elements, map values; counter from-fault-positions) and every single fault at it is applied one at a time (delete, wrong Go type, nil interface, nil Attrs, nil Elems, wrong-typed / nil element; counter from-single-faults), then random sets of 2-6 non-nested faults (counter from-fault-sets); oracle: no panic, one error diagnostic per visited fault naming the model's field path, total count equal to the number of visited faults, every field outside the faulted attributes equal to the unfaulted decode. CopyTo: for a dense source value every attribute type of every object-type level the source reaches (top level, nested objects, list and map element types) is removed or replaced one at a time (counter to-type-faults); oracle: no panic, one missing-attribute diagnostic per visit naming the field, all other attributes identical to the unfaulted run; distinct = distinct (fault kind, field path) pairs",
 		Check: stdL2("C06", 6, 120)})
+	register(&Property{ID: "C19", Level: "exploration",
+		Rule:  "cases = scalar / temporal / cast matrices of the curated corpus (k2, k3, k4, k1) + seeded random descriptors; for every scalar-like root field shape (singular, repeated element, map value, oneof branch, cast type; counter shapes) the full boundary set of its Go type (counter boundary-values: signed / unsigned 32 and 64 bit extremes, 2^53 neighbours, float32 / float64 subnormal, largest, rounding neighbours, +-0, +-Inf for double, empty / NUL / non-UTF-8 / 10 kB strings, all 256 byte values, enum numbers inside and outside the declared range, time instants with nanoseconds in +-14 h zones from year 1 to 9999, extreme durations) plus N full-range random values is placed into the field (two distinct values for lists and maps) and must survive CopyTo into an empty object followed by CopyFrom exactly (floats: bit equality up to the sign of zero); distinct = distinct (field, value) pairs",
+		Check: func(r *Run) {
+			cases := curatedCases("k1", "k2", "k3", "k4", "k6a", "k6b", "k7")
+			cases = append(cases, randomCases(r, r.pick(6, 30))...)
+			r.generate(cases)
+			r.compile(cases)
+			r.drive("C19", cases, 0)
+		}})
+	register(&Property{ID: "C10", Level: "exploration",
+		Rule: "cases = curated descriptors (k1 fixture-like configuration; k5, k7, k8, k9, k3 each under V pseudo-random option sets) + seeded random descriptors with random option sets: arbitrary subsets of fields for required / computed / sensitive keyed by full path or Message.Field, validator and plan-modifier lists carrying ids, use_state_for_unknown_by_default on / off, injected fields at the root and at nested paths, comments of ten torture shapes (multi-line, indented, CRLF, blank lines, quotes, tabs, unicode, none); one evaluation = one GenSchemaT call walked attribute by attribute against the reference model (counter attributes-judged; injected-judged; placeholders-judged) plus CopyTo runs that must not emit injected attributes; distinct = distinct (field path, flag combination, list lengths, comment presence) tuples",
+		Check: func(r *Run) {
+			cases := curatedCases("k1", "k3", "k5", "k6a", "k7", "k8", "k9")
+			for _, n := range []string{"k5", "k7", "k8", "k9", "k3", "k6a"} {
+				for k := 0; k < r.pick(2, 12); k++ {
+					cases = append(cases, caseFrom(descgen.OptionVariant(descgen.CuratedByName(n), r.Seed, k)))
+				}
+			}
+			cases = append(cases, randomCases(r, r.pick(10, 200))...)
+			r.generate(cases)
+			r.compile(cases)
+			r.drive("C10", cases, 0)
+		}})
+	register(&Property{ID: "C17", Level: "exploration",
+		Rule: "cases = curated descriptors with custom-type fields (k1: repeated customtype with a suffixes entry and a custom_types entry; k4: nullable / by-value / repeated customtype, custom_types entry with a path-like type name and default suffix) + seeded random descriptors that contain custom fields; the harness's hooks GenSchema<S> / CopyFrom<S> / CopyTo<S> are generic recording shims named after the suffix the model predicts (a different suffix does not compile); oracles: one GenSchema<S> call per custom field with the model's description and flags, schema entry = hook result; CopyTo: a call carrying the field value, the attribute type of the target and the current attribute value (absent on the first call, the earlier value on the second), stored value = returned value; CopyFrom: exactly one call with a pointer to the very field and the very attribute value, field not written by generated code, missing attribute still reported; distinct = distinct (direction, custom field, prior state) tuples",
+		Check: func(r *Run) {
+			cases := curatedCases("k1", "k4")
+			for k := 0; k < r.pick(2, 10); k++ {
+				cases = append(cases, caseFrom(descgen.OptionVariant(descgen.CuratedByName("k4"), r.Seed, k)))
+			}
+			for i := 0; len(cases) < r.pick(8, 60) && i < 2000; i++ {
+				e := descgen.Random(r.Seed, i, descgen.RandOpt{})
+				if hasCustom(e) {
+					cases = append(cases, caseFrom(e))
+				}
+			}
+			r.generate(cases)
+			r.compile(cases)
+			r.drive("C17", cases, 0)
+		}})
 	register(&Property{ID: "C20", Level: "exploration",
 		Rule:  latticeRule + "one evaluation = one CopyTo into an empty object followed by the null-ness walk over every non-element attribute (counter judged-attributes)",
 		Check: stdL2("C20", 8, 150)})
+}
+
+// hasCustom reports whether an entry has a custom-type field below its roots.
+func hasCustom(e *descgen.Entry) bool {
+	if len(e.Cfg.CustomTypes) > 0 {
+		return true
+	}
+	for _, m := range e.File.Messages {
+		for _, f := range m.Fields {
+			if f.CustomType != "" {
+				return true
+			}
+		}
+	}
+	return false
 }
